@@ -1,0 +1,35 @@
+//! WaitGroup wrapper and read-only context introspection.
+
+use crate::context::Context;
+use crate::runtime::WaitGroup;
+
+#[derive(Clone)]
+pub struct WaitGroupH(WaitGroup);
+
+impl WaitGroupH {
+  pub fn new() -> Self {
+    Self(WaitGroup::new())
+  }
+  pub fn add(&self, delta: usize) {
+    self.0.add(delta)
+  }
+  pub fn done(&self) {
+    self.0.done()
+  }
+  pub async fn wait(&self) {
+    self.0.wait().await
+  }
+  pub fn count(&self) -> usize {
+    self.0.get_count()
+  }
+}
+
+/// Number of actors the context is still waiting for (its termination WaitGroup count).
+pub fn live_actor_count(ctx: &Context) -> usize {
+  ctx.inner().verif_actor_count()
+}
+
+/// Is an inproc name currently registered in the context?
+pub fn inproc_bound(ctx: &Context, name: &str) -> bool {
+  ctx.inner().lookup_inproc(name).is_some()
+}
